@@ -134,6 +134,10 @@ def compare(g, probes, path, sig, recs, pid):
             c13 = c13 or msg
         else:
             c06 = c06 or msg
+            if "::shrink" in crash.get("freed_by", ""):
+                # the operation that crashed touched memory that an earlier shrink() had released ("freed by ... Node::shrink"):
+                # that shrink removed something a later operation still needed, which is C13's business as well
+                c13 = c13 or msg
     elif fin is not None:
         if sorted(fin["destroyed"]) != list(range(1, fin["subscribed"] + 1)):
             c06 = c06 or "after destroying the router: observers destroyed %s of %d subscribed" % (sorted(fin["destroyed"]), fin["subscribed"])
@@ -223,7 +227,7 @@ def y_check(pid, tier, seed, exe, verdict):
         if crash is not None:
             k = sum(1 for r in recs if r.get("e") == "Obs")
             opn = c["steps"][k][0] if k < len(c["steps"]) else "?"
-            if (pid == "C13") == (opn == "Shrink"):
+            if (pid == "C13") == (opn == "Shrink") or (pid == "C13" and "::shrink" in crash.get("freed_by", "")):
                 verdict.violation("router[%s,%s] random history: sanitizer / signal in %s" % (c["rt"], c["sig"], opn), " ".join(crash.get("stderr", "").split())[:300],
                                   {"component": "router", "xid": x, "router": c["rt"], "sig": c["sig"], "history": hist[:k + 1]})
     acc, rej, tst = tracecheck.validate(SPEC, "RouterTraceMC.tla", "RouterTrace.cfg", execs)
